@@ -30,6 +30,8 @@ func runC08(c *core.Ctx, r *core.Reporter) {
 	c08cache(c, r)
 	c08nostate(c, r)
 	c08late(c, r)
+	c08register(c, r)
+	c08visible(c, r)
 }
 
 // c08late: Package.DefLambda copies the fields of the lambda it is given into the lambda already
